@@ -235,6 +235,53 @@ func TestDriveC18(t *testing.T) {
 					"err": e != nil, "panic": pan, "cwdCopy": inCwd[0] >= 0, "cwdOwnerRoot": inCwd[0] == 0, "cwdMode": inCwd[2]})
 			}
 		}
+		// relative paths: the file that is examined and the file that runs are the same file - also when a file of the
+		// same relative name exists below the executable's own directory (or anywhere else a working directory could be)
+		rel := filepath.Join("tools", "verif-rel.sh")
+		markA, markB := filepath.Join(dir, "marker-rel-a"), filepath.Join(dir, "marker-rel-b")
+		putRel := func(p, marker string, uid, gid int, mode os.FileMode) {
+			must(os.MkdirAll(filepath.Dir(p), 0755))
+			os.Remove(p)
+			must(os.WriteFile(p, []byte(fmt.Sprintf("#!/bin/sh\necho ran >> %s\necho 42\n", marker)), 0700))
+			must(os.Chown(p, uid, gid))
+			must(os.Chmod(p, mode))
+		}
+		for _, named := range [][3]int{{0, 0, 0o755}, {1000, 1000, 0o755}, {0, 0, 0o757}} {
+			for _, other := range [][3]int{{1000, 1000, 0o777}, {0, 0, 0o755}} {
+				putRel(filepath.Join(cwdDir, rel), markA, named[0], named[1], os.FileMode(named[2]))
+				putRel(filepath.Join(cwdDir, "tools", rel), markB, other[0], other[1], os.FileMode(other[2])) // <cwd>/tools/tools/verif-rel.sh
+				os.Remove(markA)
+				os.Remove(markB)
+				_, e, pan := safeExec(rel, nil, 2*time.Second)
+				_, ea := os.Stat(markA)
+				_, eb := os.Stat(markB)
+				rec.Emit(Ev{"ev": "ExecRel", "ownerRoot": named[0] == 0, "groupRoot": named[1] == 0, "mode": named[2], "executed": ea == nil,
+					"otherExecuted": eb == nil, "err": e != nil, "panic": pan})
+			}
+		}
+		// a file that is busy (open for writing: the kernel refuses to start it) and becomes unsafe a moment later is never
+		// run: whatever is tried again must be examined again
+		busy := filepath.Join(cwdDir, "verif-busy.sh")
+		markC := filepath.Join(dir, "marker-busy")
+		for rep := 0; rep < 3; rep++ {
+			putRel(busy, markC, 0, 0, 0o755)
+			os.Remove(markC)
+			w, err := os.OpenFile(busy, os.O_WRONLY, 0)
+			must(err)
+			doneCh := make(chan bool, 1)
+			go func() {
+				_, e, _ := safeExec(busy, nil, 2*time.Second)
+				doneCh <- e != nil
+			}()
+			time.Sleep(time.Duration(20+20*rep) * time.Millisecond)
+			must(os.Chown(busy, 1000, 1000))
+			must(os.Chmod(busy, 0o777))
+			w.Close()
+			failed := <-doneCh
+			time.Sleep(50 * time.Millisecond)
+			_, ec := os.Stat(markC)
+			rec.Emit(Ev{"ev": "ExecBusy", "executed": ec == nil, "err": failed})
+		}
 		os.Setenv("PATH", oldPath)
 		if oldWd != "" {
 			_ = os.Chdir(oldWd)
